@@ -25,7 +25,7 @@ structure WFP (g : Geo) (L LL : Nat) (s : Rat) : Prop where
   layers : ∀ l ∈ g.layers, LayerOK LL s l
   layersNodup : (g.layers.map (·.name)).Nodup
   wells : ∀ w ∈ g.wells, WellOK s w
-  wellsNodup : (g.wells.map (·.name)).Nodup
+  wellsNodup : (g.wells.map fun w => rjust w.name 5).Nodup
 
 theorem lengths_of_conv (c : Int) (h : 0 ≤ c ∧ c ≤ 3) :
     ∃ L LL, colnameLength c = .ok L ∧ layernameLength c = .ok LL ∧ L ≤ 3 ∧ LL ≤ 3 := by
@@ -58,8 +58,8 @@ theorem lookupNode_some_of_mem {ns : List GNode} {name : Str} (h : name ∈ ns.m
     obtain ⟨n, hn, he⟩ := List.mem_map.mp h
     exact absurd (by simpa using he) (hl n hn)
 
-theorem wellNameOK_of {name : Str} (h1 : (name.length == 5) = true) (h2 : noNewline name = true) : WellNameOK name := by
-  refine ⟨by simpa using h1, ?_⟩
+theorem wellNameOK_of {name : Str} (h1 : name.length ≤ 5) (h2 : noNewline name = true) : WellNameOK name := by
+  refine ⟨h1, ?_⟩
   intro hc
   unfold noNewline at h2
   have := List.all_eq_true.mp h2 _ hc
@@ -129,7 +129,7 @@ theorem wfp_of {g : Geo} (h : WF g = true) : ∃ L LL s, WFP g L LL s := by
     unfold wellOK at this
     simp only [Bool.and_eq_true, List.all_eq_true, Bool.not_eq_true'] at this
     obtain ⟨⟨⟨h1, h2⟩, h3⟩, h4⟩ := this
-    refine ⟨wellNameOK_of h1 h2, ?_, ?_⟩
+    refine ⟨wellNameOK_of (by simpa using h1) h2, ?_, ?_⟩
     · intro he; rw [he] at h3; simp at h3
     · intro p hp
       have := h4 p hp
